@@ -44,8 +44,11 @@ HOT = [
     "http://h/%2e%2E/x", "http://h/a/../x", "http://h/x", "http://h/?a=1&a=2", "http://h/?a=%FF",
     # queries in every SHAPE the pair parser distinguishes: bare flags (no '='), blank values, empty pieces, only separators, '+'/escapes, ';'
     "http://example.com/p?flag", "http://h/?debug&verbose", "?x", "http://h/?a&b&a", "http://h/?a=&b=", "http://h/?&&", "http://h/?=", "http://h/?a;b", "http://h/?a=1;", "http://h/??", "/p?flag#f", "http://a%20b:p@h/", "http://a b:p@h/", "mailto:u@h", "http:x", "a%3Ab", "a:b", "x/y", "/x/y",
+    # non-ASCII authorities that pass the NFKC screen: with and without the delimiters the screen sets aside (':', '@', '[', ']'), with
+    # characters NFKC rewrites (full-width letters, ligatures) - whichever came first must not decide what the next one gets
+    "http://m\u00fcnchen.de/", "http://\uff45xample.com:8081/", "http://u:p@\ufb01sh.example/x", "https://\uff55ser@stra\u00dfe.example:444/", "//\uff45.example:81", "http://\u00e9@[::1]:81/", "foo://\u00e9.example",
 ]
-HOSTS = ["example.com", "EXAMPLE.com", "exa mple", "a%zzb", "a%41b", "A_b.é", "é.com", "xn--9ca.com", "::1", "0:0:0:0:0:0:0:1", "[::1]", "fe80::1%eth0", "127.0.0.1", "a_b", "h", "", "a/b", "a@b", "℀.com",
+HOSTS = ["example.com", "EXAMPLE.com", "exa mple", "a%zzb", "a%41b", "A_b.é", "é.com", "xn--9ca.com", "::1", "0:0:0:0:0:0:0:1", "[::1]", "fe80::1%eth0", "127.0.0.1", "a_b", "h", "", "a/b", "a@b", "℀.com", "\uff45xample.com", "\ufb01sh.example",
          # hosts that every validating route must reject whatever was configured or cached before: hostile zone ids, a zone with a non-ASCII letter
          "::1%a]:x", "fe80::1%e/0", "1.2.3.4%@x1", "fe80::1%\u212a", "bücher/evil.example", "a b.é"]
 USERS = ["u", "a%20b", "a b", "a@b", "a:b", "", None, "é", "%", "U"]
